@@ -1,5 +1,6 @@
 """Harness for carbon.protocols (receivers) shared by C01, C11, C12."""
 import z3
+from pyvc.core import EngineError
 
 from pyvc.interp import Interp, Spec, LoopSpec, OBJECT
 from pyvc.models import Namespace, External, EffectLog, SymSeq, TSort, TAtom, PyList
@@ -113,6 +114,7 @@ AS_ATOM = z3.Function('str_value', PyObjS, Atom)
 OBJ_FLOAT_OK = z3.Function('float_accepts', PyObjS, z3.BoolSort())
 OBJ_FLOAT_KIND = z3.Function('float_of_kind', PyObjS, z3.IntSort())
 OBJ_FLOAT_VAL = z3.Function('float_of_value', PyObjS, z3.RealSort())
+OBJ_EQ_NUM = z3.Function('equals_number', PyObjS, z3.RealSort(), z3.BoolSort())
 ITERABLE = z3.Function('is_iterable', PyObjS, z3.BoolSort())
 IS_TUPLE = z3.Function('is_tuple', PyObjS, z3.BoolSort())
 TUPLE_LEN = z3.Function('tuple_len', PyObjS, z3.IntSort())
@@ -264,6 +266,16 @@ class PyAny(Model):
       return FloatVal(OBJ_FLOAT_KIND(self.term), OBJ_FLOAT_VAL(self.term))
     k = ip.ctx.choose(3, 'float() error kind')
     raise PyRaise(ExcVal(('TypeError', 'ValueError', 'OverflowError')[k], ()))
+
+  def py___eq__(self, ip, other):
+    # comparison of an unpickled object with a number: some predicate of the object; when it holds
+    # the object is that number, so float() accepts it and yields it (kind 0 = finite)
+    if isinstance(other, bool) or not isinstance(other, (int, float)):
+      raise EngineError("== between an unpickled object and %r" % (other,))
+    r = OBJ_EQ_NUM(self.term, z3.RealVal(other))
+    ip.ctx.assume(z3.Implies(r, z3.And(OBJ_FLOAT_OK(self.term), OBJ_FLOAT_KIND(self.term) == 0,
+                                       OBJ_FLOAT_VAL(self.term) == z3.RealVal(other))))
+    return r
 
   def py_getattr(self, ip, name):
     # plain data other than str has no .encode (bytes, numbers, None, containers)
